@@ -214,6 +214,8 @@ def run(ctx):
                     counters["clements"] += 1
             if not bad:
                 ctx.validated()
+                if len(names) >= 2:
+                    ctx.sample({"gates": names, "d": d, "pure": not rec["mixed"], "passive": rec["passive"], "exact_anomalous_moments_row1": rec["anomalous"][0]}, limit=3)
     # structured unitaries that no short lattice program reaches: permutations, block-diagonal and diagonal matrices
     for d in (1, 2, 3, 4, 5):
         mats = [("identity", np.identity(d, dtype=complex))]
